@@ -334,3 +334,74 @@ V("c08-handlers-helper-ok", "C08", "silent", None,
        "            if not e.url:\n                e.url = self.url\n"
        "            if getattr(e, 'lineno', -1) < 0:\n"
        "                e.lineno = self.lineno\n            raise"))
+
+# ---------------------------------------------------------------- C05 / C06
+for _p in ("C05", "C06"):
+    V("%s-defines-copied" % _p.lower(), _p, "fire", _p + ".R",
+      (CF, "self.context.includeConfiguration(section, newurl, self.defines)",
+           "self.context.includeConfiguration(section, newurl, dict(self.defines))"))
+    V("%s-defines-copy-loader" % _p.lower(), _p, "fire", _p + ".R",
+      (LD, "                self._parse_resource(section, r, defines)",
+           "                self._parse_resource(section, r, defines.copy())"))
+V("c05-mutable-default", "C05", "fire", "C05.R1",
+  (CF, "    def __init__(self, resource, context, defines=None):",
+       "    def __init__(self, resource, context, defines={}):"),
+  (CF, "        if defines is None:\n            defines = {}\n", ""))
+V("c05-unfix-raw-compare", "C05", "fire", "C05.R5",
+  (CF, "        defvalue = self.replace(defvalue)\n        if defname in self.defines:\n"
+       "            if self.defines[defname] != defvalue:\n"
+       "                self.error(\"cannot redefine \" + repr(defname))\n"
+       "        if not isname(defname):\n"
+       "            self.error(\"not a substitution legal name: \" + repr(defname))\n"
+       "        self.defines[defname] = defvalue",
+       "        if defname in self.defines:\n"
+       "            if self.defines[defname] != defvalue:\n"
+       "                self.error(\"cannot redefine \" + repr(defname))\n"
+       "        if not isname(defname):\n"
+       "            self.error(\"not a substitution legal name: \" + repr(defname))\n"
+       "        self.defines[defname] = self.replace(defvalue)"))
+V("c05-name-not-normalised", "C05", "fire", "C05.R3",
+  (CF, "        defname = self._normalize_case(parts[0])", "        defname = parts[0]"))
+V("c05-store-unexpanded", "C05", "fire", "C05.R",
+  (CF, "        defvalue = self.replace(defvalue)\n        if defname in self.defines:",
+       "        expanded = self.replace(defvalue)\n        if defname in self.defines:"),
+  (CF, "            if self.defines[defname] != defvalue:", "            if self.defines[defname] != expanded:"))
+V("c05-no-isname", "C05", "fire", "C05.R3",
+  (CF, "        if not isname(defname):\n"
+       "            self.error(\"not a substitution legal name: \" + repr(defname))\n", ""))
+V("c05-guard-order-ok", "C05", "silent", None,
+  (CF, "        if defname in self.defines:\n"
+       "            if self.defines[defname] != defvalue:\n"
+       "                self.error(\"cannot redefine \" + repr(defname))\n"
+       "        if not isname(defname):\n"
+       "            self.error(\"not a substitution legal name: \" + repr(defname))\n",
+       "        if not isname(defname):\n"
+       "            self.error(\"not a substitution legal name: \" + repr(defname))\n"
+       "        if defname in self.defines and self.defines[defname] != defvalue:\n"
+       "            self.error(\"cannot redefine \" + repr(defname))\n"))
+V("c05-replace-other-mapping", "C05", "fire", "C05.R4",
+  (CF, "            return substitute(text, self.defines)",
+       "            return substitute(text, dict(self.defines))"))
+V("c05-defines-on-loader", "C05", "fire", "C05.R",
+  (LD, "        parser = ZConfig.cfgparser.ZConfigParser(resource, self, defines)",
+       "        if defines is None:\n            defines = self.__dict__.setdefault('_defines', {})\n"
+       "        parser = ZConfig.cfgparser.ZConfigParser(resource, self, defines)"))
+V("c06-join-top-url", "C06", "fire", "C06.R2",
+  (CF, "            newurl = ZConfig.url.urljoin(self.url, rest)",
+       "            newurl = ZConfig.url.urljoin(self.context.schema.url, rest)"))
+V("c06-no-normalize", "C06", "fire", "C06.R2",
+  (LD, "    def includeConfiguration(self, section, url, defines):\n"
+       "        url = self.normalizeURL(url)\n",
+       "    def includeConfiguration(self, section, url, defines):\n"))
+V("c06-include-top-matcher", "C06", "fire", "C06.R",
+  (LD, "                self._parse_resource(section, r, defines)",
+       "                self._parse_resource(self._top, r, defines)"))
+V("c06-shared-stack", "C06", "fire", "C06.R4",
+  (CF, "        self.stack = []   # [(type, name, prevmatcher), ...]",
+       "        self.stack = context.__dict__.setdefault('_stack', [])"))
+V("c06-no-expand-include", "C06", "fire", "C06.R2",
+  (CF, "        rest = self.replace(rest.strip())\n        try:\n            newurl",
+       "        rest = rest.strip()\n        try:\n            newurl"))
+V("c06-include-context-other", "C06", "fire", "C06.R3",
+  (LD, "        parser = ZConfig.cfgparser.ZConfigParser(resource, self, defines)",
+       "        parser = ZConfig.cfgparser.ZConfigParser(resource, ConfigLoader(self.schema), defines)"))
